@@ -951,7 +951,8 @@ def run_mt(ck):
     reps = 10 if quick else 150
     N = 1500 if quick else 6000
     plan = [("queue", 4, N, 0), ("buffer", 4, N, 0), ("seq", 4, N, 0), ("prio", 4, N, 0), ("lim", 3, N // 2, 3), ("lim", 4, N // 3, 1),
-            ("limq", 3, N // 2, 2), ("jq", 2, N, 0), ("jr", 2, N, 0), ("jqm", 2, N // 3, 0), ("jk", 3, N, 0)]
+            ("limq", 3, N // 2, 2), ("jq", 2, N, 0), ("jr", 2, N, 0), ("jqm", 2, N // 3, 0), ("jk", 3, N, 0),
+            ("wonce", 2, 3 if quick else 20, 0), ("wonce", 3, 2 if quick else 10, 0), ("owrite", 3, 2 if quick else 10, 0)]
     bad = []
     inconclusive = []
     runs = 0
@@ -969,7 +970,8 @@ def run_mt(ck):
                 break
     ck.extra["mt_runs"] = runs
     ck.oblige("monitor:multi-threaded real runs (FIFO per producer, sequencer exact order, priority drain, limiter ghost counter at an "
-              "instrumented successor, join tuple consistency)", "correspondence", not bad, bad[:2])
+              "instrumented successor, join tuple consistency, racing first writers of write_once_node / writers of overwrite_node with the "
+              "store into the buffer held open)", "correspondence", not bad, bad[:2])
     ck.oblige("monitor:multi-threaded real runs terminate with every message delivered", "correspondence", not inconclusive, inconclusive[:2])
     for sc, seed, P, n, T, what in bad[:1]:
         ck.counterexample("mt:%s" % sc, "multi-threaded scenario %s seed %d: %s" % (sc, seed, what),
